@@ -39,7 +39,7 @@ def run(ck):
                 n += 1
                 if not ck.mine(n):
                     continue
-                cap2 = cap if not ck.thorough() else cap * 8
+                cap2 = cap if not ck.thorough() else cap * 30
                 lv, _ = walk.explore(lambda: walk.Scenario(base + n, mons), [(x, kind)], leaf, max_leaves=cap2, dup_budget=dupb, drop_budget=dropb)
                 ck.count('exhaustive.leaves', lv)
                 ck.seen('exhaustive.kinds', (x, kind, dupb, dropb))
@@ -64,7 +64,7 @@ def run(ck):
             ck.count('exhaustive.leaves', lv)
             ck.seen('exhaustive.kinds', ('A', 'initial', dupb, dropb))
     # (2) random walks with late replays
-    nw = 700 if not ck.thorough() else 30000
+    nw = 700 if not ck.thorough() else 120000
     rng = ck.rng('walks', ck.shard[0])
     for w in range(nw):
         if not ck.mine(w):
